@@ -154,6 +154,15 @@ def one_case(ck, I, rng, t, RecF, RecJ, coq):
             x0, y0 = float(c.wcs.wcs.crpix[0]) - 1.0, float(c.wcs.wcs.crpix[1]) - 1.0
         else:
             x0, y0 = [float(v) for v in c.tanp_to_det(0.0, 0.0)]
+            # the detector position of the tangent point is DEFINED by the forward map (det_to_tanp = origin): refine
+            # the reported position with a few Newton steps on det_to_tanp, so that a stale inverse cannot hide
+            for _ in range(4):
+                tx, ty = [float(v) for v in c.det_to_tanp(x0, y0)]
+                if math.hypot(tx, ty) < 1e-9:
+                    break
+                J = jacobian(c, x0, y0, 0.25)
+                dx, dy = np.linalg.solve(J, np.array([tx, ty]))
+                x0, y0 = x0 - float(dx), y0 - float(dy)
         at_tp = c.tanp_pixel_scale(x0, y0)
         relc = abs(cen - at_tp) / at_tp
         ck.case(('centre', kind, g, list(hist)), True)
